@@ -8,7 +8,13 @@
 (*   k = "named"  n in {largest, smallest, smallest_subnormal, eps, posinf,*)
 (*                      neginf}                                            *)
 (*   k = "bool"   b = TRUE/FALSE                                           *)
+(*   k = "cnum"   q, qi = exact real and imaginary part of a complex       *)
+(*                constant                                                 *)
 (*   otherwise    k = operation kind, a = sequence of operand terms        *)
+(* Optional leaf fields: lv = level of the leaf's float type relative to   *)
+(* the event's base format (0 same, 1 one upcast wider, -1 one downcast    *)
+(* narrower); a symbol of type "complex" ranges over pairs of base floats. *)
+(* Values: booleans, reals (with +-inf), complex numbers (pairs), lists.   *)
 (*                                                                         *)
 (* EvalQ: denotation in exact real arithmetic over rationals (with +-inf   *)
 (* admitted only in comparisons, min/max and select).  Undefined (def =    *)
@@ -24,8 +30,17 @@ RealKinds1 == {"positive", "negative", "absolute", "square", "sqrt", "sign"}
 RealKinds2 == {"add", "subtract", "multiply", "divide", "minimum", "maximum"}
 RelKinds == {"lt", "le", "gt", "ge", "eq", "ne"}
 BoolKinds2 == {"logical_and", "logical_or", "logical_xor"}
-LeafKinds == {"sym", "num", "named", "bool"}
+LeafKinds == {"sym", "num", "named", "bool", "cnum"}
+ComplexKinds == {"complex", "real", "imag", "conjugate"}
+CastKinds == {"upcast", "downcast"}
+\* kinds whose value is specified only at the points where it is an exact rational (log 1 = 0, ...)
+ZeroAtOne == {"log", "log2", "log10", "acos", "acosh"}
+ZeroAtZero == {"log1p", "expm1", "sin", "sinh", "tan", "tanh", "asin", "asinh", "atan", "atanh"}
+OneAtZero == {"exp", "exp2", "cos", "cosh"}
+PointKinds == ZeroAtOne \cup ZeroAtZero \cup OneAtZero
 Supported == LeafKinds \cup RealKinds1 \cup RealKinds2 \cup RelKinds \cup BoolKinds2 \cup {"logical_not", "select"}
+             \cup ComplexKinds \cup CastKinds \cup PointKinds \cup {"list", "item", "hypot", "is_finite"}
+Lv(t) == IF "lv" \in DOMAIN t THEN t.lv ELSE 0
 NamedConsts == {"largest", "smallest", "smallest_subnormal", "eps", "posinf", "neginf"}
 
 RECURSIVE AllSupported(_)
@@ -41,31 +56,70 @@ SymbolsOf(t) == IF t.k = "sym" THEN {<<t.n, t.t>>}
 SmallDyadic(q) == /\ NBitLen(q[1][2]) <= 12 /\ NBitLen(q[2]) <= 12 /\ NIsPow2(q[2])
 RECURSIVE SmallConsts(_)
 SmallConsts(t) == /\ t.k = "num" => SmallDyadic(QNorm(t.q))
+                  /\ t.k = "cnum" => (SmallDyadic(QNorm(t.q)) /\ SmallDyadic(QNorm(t.qi)))
                   /\ \A i \in 1..Len(t.a) : SmallConsts(t.a[i])
 
 \* The exact-arithmetic clause can only be judged when constant folding is exact: every CLOSED
 \* arithmetic sub-term (no symbols inside) must be built from small dyadic numbers only (a fold
 \* involving eps, largest, 0.1 ... is rounded in the target type and cannot be exact).
-ArithKinds == {"positive", "negative", "absolute", "square", "sqrt", "sign", "add", "subtract", "multiply", "divide"}
+ArithKinds == {"positive", "negative", "absolute", "square", "sqrt", "sign", "add", "subtract", "multiply", "divide",
+               "conjugate", "hypot"} \cup PointKinds
 RECURSIVE NoNamed(_)
 NoNamed(t) == t.k # "named" /\ \A i \in 1..Len(t.a) : NoNamed(t.a[i])
+\* ... and a sub-term can BECOME closed during rewriting (a dead symbol: select(True, 1, x) -> 1, then
+\* 1 - largest folds, rounded; square(select(b, largest, largest)) overflows to inf).  So the rule is applied to
+\* EVERY arithmetic sub-term, closed or not: below an arithmetic kind only small dyadic literals may occur
+\* (named constants stay judgeable where the rewriter reasons about them: as operands of comparisons,
+\* min/max, select).
 RECURSIVE ExactJudgeable(_)
 ExactJudgeable(t) ==
-  /\ (t.k \in ArithKinds /\ SymbolsOf(t) = {}) => (SmallConsts(t) /\ NoNamed(t))
+  /\ t.k \in ArithKinds => (SmallConsts(t) /\ NoNamed(t))
   /\ \A i \in 1..Len(t.a) : ExactJudgeable(t.a[i])
+\* Backstop: every numeric literal of the rewritten term must be a small dyadic or a literal of the original
+\* term, and it must not name a constant the original does not name; otherwise a rounded fold took place
+\* and the exact clause is not judged (the float clause still is).
+RECURSIVE NamedOf(_)
+NamedOf(t) == (IF t.k = "named" THEN {t.n} ELSE {}) \cup UNION {NamedOf(t.a[i]) : i \in 1..Len(t.a)}
+RECURSIVE NumsOf(_)
+NumsOf(t) == (IF t.k = "num" THEN {QNorm(t.q)} ELSE IF t.k = "cnum" THEN {QNorm(t.q), QNorm(t.qi)} ELSE {})
+             \cup UNION {NumsOf(t.a[i]) : i \in 1..Len(t.a)}
+ExactJudgeablePair(t, t2) == /\ ExactJudgeable(t)
+                             /\ LET n1 == NumsOf(t) IN \A q \in NumsOf(t2) : SmallDyadic(q) \/ q \in n1
+                             /\ NamedOf(t2) \subseteq NamedOf(t)
 
 RECURSIVE TermSize(_)
-TermSize(t) == 1 + (IF Len(t.a) = 0 THEN 0 ELSE
-                    IF Len(t.a) = 1 THEN TermSize(t.a[1]) ELSE
-                    IF Len(t.a) = 2 THEN TermSize(t.a[1]) + TermSize(t.a[2])
-                    ELSE TermSize(t.a[1]) + TermSize(t.a[2]) + TermSize(t.a[3]))
+RECURSIVE SizeFrom(_, _)
+SizeFrom(a, i) == IF i > Len(a) THEN 0 ELSE TermSize(a[i]) + SizeFrom(a, i + 1)
+TermSize(t) == 1 + SizeFrom(t.a, 1)
 
 (*************************** exact semantics *******************************)
-\* results: [def, isb, b, q, inf]  (inf: -1, 0, 1)
-QUndef == [def |-> FALSE, isb |-> FALSE, b |-> FALSE, q |-> <<ZZero, NOne>>, inf |-> 0]
-QNum(q) == [def |-> TRUE, isb |-> FALSE, b |-> FALSE, q |-> q, inf |-> 0]
-QInf(s) == [def |-> TRUE, isb |-> FALSE, b |-> FALSE, q |-> <<ZZero, NOne>>, inf |-> s]
-QBool(b) == [def |-> TRUE, isb |-> TRUE, b |-> b, q |-> <<ZZero, NOne>>, inf |-> 0]
+\* results: [def, isb, b, q, inf, c, qi, isl, lst, un]
+\*   boolean: isb, b;  real: q (inf = 0) or an infinity (inf = -1, 1);  complex: c, q + i qi;  list: isl, lst
+QZ == <<ZZero, NOne>>
+QBase == [def |-> TRUE, isb |-> FALSE, b |-> FALSE, q |-> QZ, inf |-> 0, c |-> FALSE, qi |-> QZ, isl |-> FALSE, lst |-> <<>>, un |-> FALSE]
+QUndef == [QBase EXCEPT !.def = FALSE]
+\* un: the value exists (or may exist) but this semantics does not determine it (an irrational square
+\* root, log 2, a kind without a specification): a term with such a node is never judged
+QUn == [QBase EXCEPT !.def = FALSE, !.un = TRUE]
+QU1(x, r) == IF x.un THEN QUn ELSE r
+QU2(x, y, r) == IF x.un \/ y.un THEN QUn ELSE r
+QNum(q) == [QBase EXCEPT !.q = q]
+QInf(s) == [QBase EXCEPT !.inf = s]
+QBool(b) == [QBase EXCEPT !.isb = TRUE, !.b = b]
+QCplx(re, im) == [QBase EXCEPT !.c = TRUE, !.q = re, !.qi = im]
+QList(s) == [QBase EXCEPT !.isl = TRUE, !.lst = s]
+
+\* formats reachable by casts from the base format of an event
+NoFmt == [p |-> 0, emax |-> 0, w |-> 0]
+HasFmt(g) == g.p > 0
+UpOf(g) == IF g = F16 THEN F32 ELSE IF g = F32 THEN F64 ELSE NoFmt
+DownOf(g) == IF g = F64 THEN F32 ELSE IF g = F32 THEN F16 ELSE NoFmt
+FmtLv(f, lv) == CASE lv = 0 -> f [] lv = 1 -> UpOf(f) [] lv = -1 -> DownOf(f)
+                  [] lv = 2 -> (IF HasFmt(UpOf(f)) THEN UpOf(UpOf(f)) ELSE NoFmt)
+                  [] lv = -2 -> (IF HasFmt(DownOf(f)) THEN DownOf(DownOf(f)) ELSE NoFmt)
+                  [] OTHER -> NoFmt
+\* the format a leaf's literal is read in (the base format when the cast chain leaves float16..float64)
+LeafFmt(f, t) == IF HasFmt(FmtLv(f, Lv(t))) THEN FmtLv(f, Lv(t)) ELSE f
 
 NamedQ(f, n) ==
   CASE n = "largest" -> QNum(QFromD(Val(f, LargestMag(f))))
@@ -74,32 +128,62 @@ NamedQ(f, n) ==
     [] n = "eps" -> QNum(QFromD(<<ZFromInt(1), -(f.p - 1)>>))
     [] n = "posinf" -> QInf(1)
     [] n = "neginf" -> QInf(-1)
-    [] OTHER -> QUndef
+    [] OTHER -> QUn
 
-\* three-way comparison of two defined non-boolean results (infinities allowed)
+\* three-way comparison of two defined real results (infinities allowed)
 QCmp3(x, y) == IF x.inf # 0 \/ y.inf # 0
                THEN (IF x.inf = y.inf THEN 0 ELSE IF x.inf < y.inf THEN -1 ELSE 1)
                ELSE QCmp(x.q, y.q)
-QFin(x) == x.def /\ ~x.isb /\ x.inf = 0
-QNumeric(x) == x.def /\ ~x.isb
+QNumeric(x) == x.def /\ ~x.isb /\ ~x.c /\ ~x.isl                 \* a real (possibly infinite)
+QFin(x) == QNumeric(x) /\ x.inf = 0
+QCx(x) == x.def /\ ~x.isb /\ ~x.isl /\ x.inf = 0                 \* a finite real or a complex number
+Re(x) == x.q
+Im(x) == IF x.c THEN x.qi ELSE QZ
 
 RelHolds(k, c) == CASE k = "lt" -> c < 0 [] k = "le" -> c <= 0 [] k = "gt" -> c > 0
                     [] k = "ge" -> c >= 0 [] k = "eq" -> c = 0 [] k = "ne" -> c # 0
 
-RECURSIVE EvalQ(_, _, _)
-EvalQ(f, t, env) ==
-  CASE t.k = "sym" -> IF t.t = "boolean" THEN QBool(env[t.n].b) ELSE QNum(QFromD(Val(f, env[t.n].bits)))
-    [] t.k = "num" -> (
-         \* a numeric constant denotes its value in the format of its like (a dyadic literal)
-         LET d == QNorm(t.q)
-         IN  IF ~NIsPow2(d[2]) THEN QNum(t.q)
-             ELSE LET r == RN(f, DMk(d[1], -(NBitLen(d[2]) - 1)))
-                  IN  IF IsFinite(f, r) THEN QNum(QFromD(Val(f, r))) ELSE QUndef)
-    [] t.k = "named" -> NamedQ(f, t.n)
+\* a literal read in format g: a dyadic literal denotes its value in the type of its like
+LitQ(g, q) == LET d == QNorm(q)
+              IN  IF ~NIsPow2(d[2]) THEN [ok |-> TRUE, q |-> q]
+                  ELSE LET r == RN(g, DMk(d[1], -(NBitLen(d[2]) - 1)))
+                       IN  IF IsFinite(g, r) THEN [ok |-> TRUE, q |-> QFromD(Val(g, r))] ELSE [ok |-> FALSE, q |-> QZ]
+
+\* the value of a point-specified kind (log 1 = 0 ...), undefined elsewhere
+PointQ(k, x) ==
+  IF ~QFin(x) THEN QUn
+  ELSE IF k \in ZeroAtOne THEN (IF QEq(x.q, QFromInt(1)) THEN QNum(QZ) ELSE QUn)
+  ELSE IF k \in ZeroAtZero THEN (IF QIsZero(x.q) THEN QNum(QZ) ELSE QUn)
+  ELSE IF k \in OneAtZero THEN (IF QIsZero(x.q) THEN QNum(QFromInt(1)) ELSE QUn)
+  ELSE QUn
+
+\* index denoted by an item's index term: a non-negative integer literal
+IndexOf(t) == IF t.k = "num" /\ QNorm(t.q)[2] = NOne /\ ZSign(QNorm(t.q)[1]) >= 0 /\ NBitLen(QNorm(t.q)[1][2]) <= 8
+              THEN NToInt(QNorm(t.q)[1][2]) ELSE -1
+
+\* m = "strict": a select is defined only if both branches are (the generated code computes both);
+\* m = "lazy": a select is the conditional expression of real analysis (only the selected branch)
+RECURSIVE EvalQm(_, _, _, _)
+EvalQm(m, f, t, env) ==
+  CASE t.k = "sym" -> (IF t.t = "boolean" THEN QBool(env[t.n].b)
+                       ELSE IF t.t = "complex" THEN QCplx(QFromD(Val(f, env[t.n].bits)), QFromD(Val(f, env[t.n].im)))
+                       ELSE QNum(QFromD(Val(f, env[t.n].bits))))
+    [] t.k = "num" -> (LET r == LitQ(LeafFmt(f, t), t.q) IN IF r.ok THEN QNum(r.q) ELSE QUndef)
+    [] t.k = "cnum" -> (LET r == LitQ(LeafFmt(f, t), t.q)  i == LitQ(LeafFmt(f, t), t.qi)
+                        IN  IF r.ok /\ i.ok THEN QCplx(r.q, i.q) ELSE QUndef)
+    [] t.k = "named" -> NamedQ(LeafFmt(f, t), t.n)
     [] t.k = "bool" -> QBool(t.b)
     [] t.k \in RealKinds1 -> (
-         LET x == EvalQ(f, t.a[1], env)
-         IN  IF ~QNumeric(x) THEN QUndef
+         LET x == EvalQm(m, f, t.a[1], env)
+         IN  IF x.un THEN QUn
+             ELSE IF x.def /\ x.c THEN
+               (CASE t.k = "positive" -> x
+                  [] t.k = "negative" -> QCplx(QNeg(x.q), QNeg(x.qi))
+                  [] t.k = "square" -> QCplx(QSub(QMul(x.q, x.q), QMul(x.qi, x.qi)), QMul(QFromInt(2), QMul(x.q, x.qi)))
+                  [] t.k = "absolute" -> (LET s == QAdd(QMul(x.q, x.q), QMul(x.qi, x.qi))
+                                          IN  IF QIsSquare(s) THEN QNum(QSqrt(s)) ELSE QUn)
+                  [] OTHER -> QUn)
+             ELSE IF ~QNumeric(x) THEN QUndef
              ELSE IF x.inf # 0 THEN
                (CASE t.k = "positive" -> x [] t.k = "negative" -> QInf(-x.inf) [] t.k = "absolute" -> QInf(1)
                   [] OTHER -> QUndef)
@@ -108,11 +192,24 @@ EvalQ(f, t, env) ==
                     [] t.k = "absolute" -> QNum(QAbs(x.q))
                     [] t.k = "square" -> QNum(QMul(x.q, x.q))
                     [] t.k = "sign" -> QNum(QFromInt(QSign(x.q)))
-                    [] t.k = "sqrt" -> IF QIsSquare(x.q) THEN QNum(QSqrt(x.q)) ELSE QUndef)
+                    [] t.k = "sqrt" -> IF QSign(x.q) < 0 THEN QUndef
+                                       ELSE IF QIsSquare(x.q) THEN QNum(QSqrt(x.q)) ELSE QUn)
     [] t.k \in RealKinds2 -> (
-         LET x == EvalQ(f, t.a[1], env)
-             y == EvalQ(f, t.a[2], env)
-         IN  IF ~QNumeric(x) \/ ~QNumeric(y) THEN QUndef
+         LET x == EvalQm(m, f, t.a[1], env)
+             y == EvalQm(m, f, t.a[2], env)
+         IN  IF x.un \/ y.un THEN QUn
+             ELSE IF x.def /\ y.def /\ (x.c \/ y.c) THEN
+               (IF ~QCx(x) \/ ~QCx(y) THEN QUndef
+                ELSE CASE t.k = "add" -> QCplx(QAdd(Re(x), Re(y)), QAdd(Im(x), Im(y)))
+                       [] t.k = "subtract" -> QCplx(QSub(Re(x), Re(y)), QSub(Im(x), Im(y)))
+                       [] t.k = "multiply" -> QCplx(QSub(QMul(Re(x), Re(y)), QMul(Im(x), Im(y))),
+                                                    QAdd(QMul(Re(x), Im(y)), QMul(Im(x), Re(y))))
+                       [] t.k = "divide" -> (LET n2 == QAdd(QMul(Re(y), Re(y)), QMul(Im(y), Im(y)))
+                                             IN  IF QIsZero(n2) THEN QUndef
+                                                 ELSE QCplx(QDiv(QAdd(QMul(Re(x), Re(y)), QMul(Im(x), Im(y))), n2),
+                                                            QDiv(QSub(QMul(Im(x), Re(y)), QMul(Re(x), Im(y))), n2)))
+                       [] OTHER -> QUn)
+             ELSE IF ~QNumeric(x) \/ ~QNumeric(y) THEN QUndef
              ELSE IF t.k \in {"minimum", "maximum"} THEN
                     LET c == QCmp3(x, y)
                     IN  IF t.k = "minimum" THEN (IF c <= 0 THEN x ELSE y) ELSE (IF c >= 0 THEN x ELSE y)
@@ -122,118 +219,276 @@ EvalQ(f, t, env) ==
                     [] t.k = "multiply" -> QNum(QMul(x.q, y.q))
                     [] t.k = "divide" -> IF QIsZero(y.q) THEN QUndef ELSE QNum(QDiv(x.q, y.q)))
     [] t.k \in RelKinds -> (
-         LET x == EvalQ(f, t.a[1], env)
-             y == EvalQ(f, t.a[2], env)
-         IN  IF ~QNumeric(x) \/ ~QNumeric(y) THEN QUndef ELSE QBool(RelHolds(t.k, QCmp3(x, y))))
+         LET x == EvalQm(m, f, t.a[1], env)
+             y == EvalQm(m, f, t.a[2], env)
+         IN  IF x.un \/ y.un THEN QUn
+             ELSE IF x.def /\ y.def /\ (x.c \/ y.c) THEN
+               (IF QCx(x) /\ QCx(y) /\ t.k \in {"eq", "ne"}
+                THEN QBool((QEq(Re(x), Re(y)) /\ QEq(Im(x), Im(y))) = (t.k = "eq")) ELSE QUn)
+             ELSE IF ~QNumeric(x) \/ ~QNumeric(y) THEN QUndef ELSE QBool(RelHolds(t.k, QCmp3(x, y))))
     [] t.k \in BoolKinds2 -> (
-         LET x == EvalQ(f, t.a[1], env)
-             y == EvalQ(f, t.a[2], env)
-         IN  IF ~(x.def /\ x.isb /\ y.def /\ y.isb) THEN QUndef
+         LET x == EvalQm(m, f, t.a[1], env)
+             y == EvalQm(m, f, t.a[2], env)
+         IN  IF x.un \/ y.un THEN QUn
+             ELSE IF ~(x.def /\ x.isb /\ y.def /\ y.isb) THEN QUndef
              ELSE CASE t.k = "logical_and" -> QBool(x.b /\ y.b)
                     [] t.k = "logical_or" -> QBool(x.b \/ y.b)
                     [] t.k = "logical_xor" -> QBool(x.b # y.b))
     [] t.k = "logical_not" -> (
-         LET x == EvalQ(f, t.a[1], env) IN IF x.def /\ x.isb THEN QBool(~x.b) ELSE QUndef)
+         LET x == EvalQm(m, f, t.a[1], env) IN QU1(x, IF x.def /\ x.isb THEN QBool(~x.b) ELSE QUndef))
     [] t.k = "select" -> (
-         LET c == EvalQ(f, t.a[1], env)
-             x == EvalQ(f, t.a[2], env)
-             y == EvalQ(f, t.a[3], env)
-         \* both branches are computed by the generated code: defined only if both are
-         IN  IF ~(c.def /\ c.isb /\ x.def /\ y.def) THEN QUndef ELSE IF c.b THEN x ELSE y)
-    [] OTHER -> QUndef
+         LET c == EvalQm(m, f, t.a[1], env)
+             x == EvalQm(m, f, t.a[2], env)
+             y == EvalQm(m, f, t.a[3], env)
+         IN  IF c.un THEN QUn
+             ELSE IF ~(c.def /\ c.isb) THEN QUndef
+             ELSE IF m = "lazy" THEN (IF c.b THEN x ELSE y)
+             ELSE IF x.un \/ y.un THEN QUn
+             ELSE IF ~(x.def /\ y.def) THEN QUndef ELSE IF c.b THEN x ELSE y)
+    [] t.k = "complex" -> (
+         LET x == EvalQm(m, f, t.a[1], env)
+             y == EvalQm(m, f, t.a[2], env)
+         \* complex(a, b) = a + i b (a, b real in well-typed programs; the general reading keeps a constant that
+         \* the rewriter folded into a complex-typed literal, e.g. abs(3+4j) -> 5+0j, at its value)
+         IN  QU2(x, y, IF QCx(x) /\ QCx(y) THEN QCplx(QSub(Re(x), Im(y)), QAdd(Im(x), Re(y))) ELSE QUndef))
+    [] t.k \in {"real", "imag", "conjugate"} -> (
+         LET x == EvalQm(m, f, t.a[1], env)
+         IN  IF x.un THEN QUn
+             ELSE IF ~QCx(x) THEN QUndef
+             ELSE CASE t.k = "real" -> QNum(Re(x))
+                    [] t.k = "imag" -> QNum(Im(x))
+                    [] t.k = "conjugate" -> IF x.c THEN QCplx(x.q, QNeg(x.qi)) ELSE x)
+    [] t.k \in CastKinds -> (      \* casts are the identity on real numbers
+         LET x == EvalQm(m, f, t.a[1], env) IN QU1(x, IF x.def /\ ~x.isb /\ ~x.isl THEN x ELSE QUndef))
+    [] t.k \in PointKinds -> (LET x == EvalQm(m, f, t.a[1], env) IN IF x.def \/ x.un THEN PointQ(t.k, x) ELSE QUndef)
+    [] t.k = "hypot" -> (
+         LET x == EvalQm(m, f, t.a[1], env)
+             y == EvalQm(m, f, t.a[2], env)
+         IN  IF x.un \/ y.un THEN QUn
+             ELSE IF ~QFin(x) \/ ~QFin(y) THEN QUndef
+             ELSE LET s == QAdd(QMul(x.q, x.q), QMul(y.q, y.q)) IN IF QIsSquare(s) THEN QNum(QSqrt(s)) ELSE QUn)
+    [] t.k = "is_finite" -> (
+         LET x == EvalQm(m, f, t.a[1], env) IN QU1(x, IF QNumeric(x) THEN QBool(x.inf = 0) ELSE QUndef))
+    [] t.k = "list" -> (
+         LET s == [i \in 1..Len(t.a) |-> EvalQm(m, f, t.a[i], env)]
+         IN  IF \E i \in 1..Len(s) : s[i].un THEN QUn
+             ELSE IF \A i \in 1..Len(s) : s[i].def THEN QList(s) ELSE QUndef)
+    [] t.k = "item" -> (
+         LET l == EvalQm(m, f, t.a[1], env)
+             i == IndexOf(t.a[2])
+         IN  QU1(l, IF l.def /\ l.isl /\ i >= 0 /\ i < Len(l.lst) THEN l.lst[i + 1] ELSE QUndef))
+    [] OTHER -> QUn
+EvalQ(f, t, env) == EvalQm("strict", f, t, env)
+EvalQLazy(f, t, env) == EvalQm("lazy", f, t, env)
 
-QSame(x, y) == /\ x.isb = y.isb
-               /\ IF x.isb THEN x.b = y.b
-                  ELSE x.inf = y.inf /\ (x.inf = 0 => QEq(x.q, y.q))
+\* same value; a complex number with zero imaginary part is the real number (5 + 0i = 5)
+RECURSIVE QSame(_, _)
+QSame(x, y) ==
+  IF x.isl \/ y.isl THEN x.isl /\ y.isl /\ Len(x.lst) = Len(y.lst) /\ \A i \in 1..Len(x.lst) : QSame(x.lst[i], y.lst[i])
+  ELSE /\ x.isb = y.isb
+       /\ IF x.isb THEN x.b = y.b
+          ELSE x.inf = y.inf /\ (x.inf = 0 => (QEq(x.q, y.q) /\ QEq(Im(x), Im(y))))
 
 (*************************** floating-point semantics **********************)
-\* results: [exc, isb, b, bits]
-FExc == [exc |-> TRUE, isb |-> FALSE, b |-> FALSE, bits |-> <<>>]
-FNum(bits) == [exc |-> FALSE, isb |-> FALSE, b |-> FALSE, bits |-> bits]
-FBool(b) == [exc |-> FALSE, isb |-> TRUE, b |-> b, bits |-> <<>>]
+\* results: [exc, isb, b, bits, lv, c, im, isl, lst, un]; a float carries the level lv of its format
+FBase == [exc |-> FALSE, isb |-> FALSE, b |-> FALSE, bits |-> <<>>, lv |-> 0, c |-> FALSE, im |-> <<>>, isl |-> FALSE, lst |-> <<>>, un |-> FALSE]
+FExc == [FBase EXCEPT !.exc = TRUE]
+\* un: not an exception of the evaluation but a node whose result this semantics does not determine bit for bit
+\* (complex product, a libm call, a format outside float16..float64, mixed-format arithmetic): never judged
+FUn == [FBase EXCEPT !.exc = TRUE, !.un = TRUE]
+FU1(x, r) == IF x.un THEN FUn ELSE r
+FU2(x, y, r) == IF x.un \/ y.un THEN FUn ELSE r
+FNumL(bits, lv) == [FBase EXCEPT !.bits = bits, !.lv = lv]
+FNum(bits) == FNumL(bits, 0)
+FBool(b) == [FBase EXCEPT !.isb = TRUE, !.b = b]
+FCplx(re, im, lv) == [FBase EXCEPT !.c = TRUE, !.bits = re, !.im = im, !.lv = lv]
+FList(s) == [FBase EXCEPT !.isl = TRUE, !.lst = s]
+FReal(x) == ~x.exc /\ ~x.isb /\ ~x.c /\ ~x.isl
+FCx(x) == ~x.exc /\ ~x.isb /\ ~x.isl
 
-NamedF(f, n) ==
-  CASE n = "largest" -> FNum(LargestMag(f))
-    [] n = "smallest" -> FNum(MinNormalMag(f))
-    [] n = "smallest_subnormal" -> FNum(NOne)
-    [] n = "eps" -> FNum(RN(f, <<ZFromInt(1), -(f.p - 1)>>))
-    [] n = "posinf" -> FNum(PosInf(f))
-    [] n = "neginf" -> FNum(NegInf(f))
-    [] OTHER -> FExc
+NamedF(f, n, lv) ==
+  CASE n = "largest" -> FNumL(LargestMag(f), lv)
+    [] n = "smallest" -> FNumL(MinNormalMag(f), lv)
+    [] n = "smallest_subnormal" -> FNumL(NOne, lv)
+    [] n = "eps" -> FNumL(RN(f, <<ZFromInt(1), -(f.p - 1)>>), lv)
+    [] n = "posinf" -> FNumL(PosInf(f), lv)
+    [] n = "neginf" -> FNumL(NegInf(f), lv)
+    [] OTHER -> FUn
 
 \* a correctly rounded arithmetic result r of finite operands whose exact value is not zero:
 \* exceptional if it overflowed, or underflowed (tiny: below the normal range)
 Tiny(f, r) == NCmp(Mag(f, r), MinNormalMag(f)) < 0
-ArithRes(f, r, exactzero) ==
-  IF ~IsFinite(f, r) THEN FExc
-  ELSE IF ~exactzero /\ Tiny(f, r) THEN FExc
-  ELSE FNum(r)
+ArithBits(f, r, exactzero) == IsFinite(f, r) /\ (exactzero \/ ~Tiny(f, r))
+ArithRes(f, r, exactzero, lv) == IF ArithBits(f, r, exactzero) THEN FNumL(r, lv) ELSE FExc
 
 FCmp3(f, x, y) == \* x, y not NaN; infinities allowed
   LET ox == Ord(f, x)  oy == Ord(f, y) IN ZCmp(ox, oy)
 
+\* a dyadic literal read in format g
+LitF(g, q) == LET d == QNorm(q)
+              IN  IF ~NIsPow2(d[2]) THEN [ok |-> FALSE, bits |-> <<>>]
+                  ELSE LET r == RN(g, DMk(d[1], -(NBitLen(d[2]) - 1)))
+                       IN  [ok |-> IsFinite(g, r), bits |-> r]
+
+AddZero(g, a, b) == DIsZero(DAdd(Val(g, a), Val(g, b)))
+SubZero(g, a, b) == DIsZero(DSub(Val(g, a), Val(g, b)))
+
 RECURSIVE EvalF(_, _, _)
 EvalF(f, t, env) ==
-  CASE t.k = "sym" -> IF t.t = "boolean" THEN FBool(env[t.n].b) ELSE FNum(env[t.n].bits)
-    [] t.k = "num" -> (LET d == QNorm(t.q)
-                      IN  \* numeric constants are dyadic (Python/NumPy floats, ints)
-                          IF ~NIsPow2(d[2]) THEN FExc
-                          ELSE LET r == RN(f, DMk(d[1], -(NBitLen(d[2]) - 1)))
-                               IN  IF IsFinite(f, r) THEN FNum(r) ELSE FExc)
-    [] t.k = "named" -> NamedF(f, t.n)
+  CASE t.k = "sym" -> (IF t.t = "boolean" THEN FBool(env[t.n].b)
+                       ELSE IF t.t = "complex" THEN FCplx(env[t.n].bits, env[t.n].im, 0)
+                       ELSE FNum(env[t.n].bits))
+    [] t.k = "num" -> (LET g == FmtLv(f, Lv(t))
+                      IN  IF ~HasFmt(g) THEN FUn
+                          ELSE LET r == LitF(g, t.q) IN IF r.ok THEN FNumL(r.bits, Lv(t)) ELSE FExc)
+    [] t.k = "cnum" -> (LET g == FmtLv(f, Lv(t))
+                       IN  IF ~HasFmt(g) THEN FUn
+                           ELSE LET r == LitF(g, t.q)  i == LitF(g, t.qi)
+                                IN  IF r.ok /\ i.ok THEN FCplx(r.bits, i.bits, Lv(t)) ELSE FExc)
+    [] t.k = "named" -> (LET g == FmtLv(f, Lv(t)) IN IF HasFmt(g) THEN NamedF(g, t.n, Lv(t)) ELSE FUn)
     [] t.k = "bool" -> FBool(t.b)
     [] t.k \in RealKinds1 -> (
          LET x == EvalF(f, t.a[1], env)
-         IN  IF x.exc \/ x.isb THEN FExc
-             ELSE IF ~IsFinite(f, x.bits) THEN
-               (CASE t.k = "positive" -> x [] t.k = "negative" -> FNum(FNeg(f, x.bits))
-                  [] t.k = "absolute" -> FNum(FAbs(f, x.bits)) [] OTHER -> FExc)
+             g == FmtLv(f, x.lv)
+         IN  IF x.un \/ (~x.exc /\ ~HasFmt(g)) THEN FUn
+             ELSE IF ~FCx(x) THEN FExc
+             ELSE IF x.c THEN
+               (CASE t.k = "positive" -> x
+                  [] t.k = "negative" -> FCplx(FNeg(g, x.bits), FNeg(g, x.im), x.lv)
+                  [] OTHER -> FUn)        \* complex multiplication, modulus: not specified bit for bit
+             ELSE IF ~IsFinite(g, x.bits) THEN
+               (CASE t.k = "positive" -> x [] t.k = "negative" -> FNumL(FNeg(g, x.bits), x.lv)
+                  [] t.k = "absolute" -> FNumL(FAbs(g, x.bits), x.lv) [] OTHER -> FExc)
              ELSE CASE t.k = "positive" -> x
-                    [] t.k = "negative" -> FNum(FNeg(f, x.bits))
-                    [] t.k = "absolute" -> FNum(FAbs(f, x.bits))
-                    [] t.k = "square" -> ArithRes(f, FMul(f, x.bits, x.bits), IsZero(f, x.bits))
-                    [] t.k = "sign" -> IF IsZero(f, x.bits) THEN FNum(PosZero(f))
-                                       ELSE FNum(WithSign(f, SignBit(f, x.bits), RN(f, DFromInt(1))))
-                    [] t.k = "sqrt" -> IF SignBit(f, x.bits) = 1 /\ ~IsZero(f, x.bits) THEN FExc
-                                       ELSE FNum(FSqrt(f, x.bits)))
+                    [] t.k = "negative" -> FNumL(FNeg(g, x.bits), x.lv)
+                    [] t.k = "absolute" -> FNumL(FAbs(g, x.bits), x.lv)
+                    [] t.k = "square" -> ArithRes(g, FMul(g, x.bits, x.bits), IsZero(g, x.bits), x.lv)
+                    [] t.k = "sign" -> IF IsZero(g, x.bits) THEN FNumL(PosZero(g), x.lv)
+                                       ELSE FNumL(WithSign(g, SignBit(g, x.bits), RN(g, DFromInt(1))), x.lv)
+                    [] t.k = "sqrt" -> IF SignBit(g, x.bits) = 1 /\ ~IsZero(g, x.bits) THEN FExc
+                                       ELSE FNumL(FSqrt(g, x.bits), x.lv))
     [] t.k \in RealKinds2 -> (
          LET x == EvalF(f, t.a[1], env)
              y == EvalF(f, t.a[2], env)
-         IN  IF x.exc \/ y.exc \/ x.isb \/ y.isb THEN FExc
+             g == FmtLv(f, x.lv)
+         IN  IF x.un \/ y.un THEN FUn
+             ELSE IF ~FCx(x) \/ ~FCx(y) THEN FExc
+             ELSE IF x.lv # y.lv \/ ~HasFmt(g) THEN FUn      \* mixed formats: promotion not modelled
+             ELSE IF x.c \/ y.c THEN
+               \* component-wise sum / difference; a real operand is x + (+0)i; products and quotients are
+               \* not specified bit for bit
+               (IF t.k \notin {"add", "subtract"} THEN FUn
+                ELSE LET xi == IF x.c THEN x.im ELSE PosZero(g)
+                         yi == IF y.c THEN y.im ELSE PosZero(g)
+                     IN  IF ~(IsFinite(g, x.bits) /\ IsFinite(g, y.bits) /\ IsFinite(g, xi) /\ IsFinite(g, yi)) THEN FExc
+                         ELSE LET re == IF t.k = "add" THEN FAdd(g, x.bits, y.bits) ELSE FSub(g, x.bits, y.bits)
+                                  im == IF t.k = "add" THEN FAdd(g, xi, yi) ELSE FSub(g, xi, yi)
+                                  zr == IF t.k = "add" THEN AddZero(g, x.bits, y.bits) ELSE SubZero(g, x.bits, y.bits)
+                                  zi == IF t.k = "add" THEN AddZero(g, xi, yi) ELSE SubZero(g, xi, yi)
+                              IN  IF ArithBits(g, re, zr) /\ ArithBits(g, im, zi) THEN FCplx(re, im, x.lv) ELSE FExc)
              ELSE IF t.k \in {"minimum", "maximum"} THEN
-                    LET c == FCmp3(f, x.bits, y.bits)
+                    LET c == FCmp3(g, x.bits, y.bits)
                     IN  IF t.k = "minimum" THEN (IF c <= 0 THEN x ELSE y) ELSE (IF c >= 0 THEN x ELSE y)
-             ELSE IF ~IsFinite(f, x.bits) \/ ~IsFinite(f, y.bits) THEN FExc
-             ELSE CASE t.k = "add" -> ArithRes(f, FAdd(f, x.bits, y.bits), DIsZero(DAdd(Val(f, x.bits), Val(f, y.bits))))
-                    [] t.k = "subtract" -> ArithRes(f, FSub(f, x.bits, y.bits), DIsZero(DSub(Val(f, x.bits), Val(f, y.bits))))
-                    [] t.k = "multiply" -> ArithRes(f, FMul(f, x.bits, y.bits), IsZero(f, x.bits) \/ IsZero(f, y.bits))
-                    [] t.k = "divide" -> IF IsZero(f, y.bits) THEN FExc
-                                         ELSE ArithRes(f, FDiv(f, x.bits, y.bits), IsZero(f, x.bits)))
+             ELSE IF ~IsFinite(g, x.bits) \/ ~IsFinite(g, y.bits) THEN FExc
+             ELSE CASE t.k = "add" -> ArithRes(g, FAdd(g, x.bits, y.bits), AddZero(g, x.bits, y.bits), x.lv)
+                    [] t.k = "subtract" -> ArithRes(g, FSub(g, x.bits, y.bits), SubZero(g, x.bits, y.bits), x.lv)
+                    [] t.k = "multiply" -> ArithRes(g, FMul(g, x.bits, y.bits), IsZero(g, x.bits) \/ IsZero(g, y.bits), x.lv)
+                    [] t.k = "divide" -> IF IsZero(g, y.bits) THEN FExc
+                                         ELSE ArithRes(g, FDiv(g, x.bits, y.bits), IsZero(g, x.bits), x.lv))
     [] t.k \in RelKinds -> (
          LET x == EvalF(f, t.a[1], env)
              y == EvalF(f, t.a[2], env)
-         IN  IF x.exc \/ y.exc \/ x.isb \/ y.isb THEN FExc
-             ELSE FBool(RelHolds(t.k, FCmp3(f, x.bits, y.bits))))
+             g == FmtLv(f, x.lv)
+         IN  IF x.un \/ y.un THEN FUn
+             ELSE IF x.exc \/ y.exc THEN FExc
+             ELSE IF ~FReal(x) \/ ~FReal(y) \/ x.lv # y.lv \/ ~HasFmt(g) THEN FUn
+             ELSE FBool(RelHolds(t.k, FCmp3(g, x.bits, y.bits))))
     [] t.k \in BoolKinds2 -> (
          LET x == EvalF(f, t.a[1], env)
              y == EvalF(f, t.a[2], env)
-         IN  IF x.exc \/ y.exc \/ ~x.isb \/ ~y.isb THEN FExc
+         IN  IF x.un \/ y.un THEN FUn
+             ELSE IF x.exc \/ y.exc \/ ~x.isb \/ ~y.isb THEN FExc
              ELSE CASE t.k = "logical_and" -> FBool(x.b /\ y.b)
                     [] t.k = "logical_or" -> FBool(x.b \/ y.b)
                     [] t.k = "logical_xor" -> FBool(x.b # y.b))
     [] t.k = "logical_not" -> (
-         LET x == EvalF(f, t.a[1], env) IN IF x.exc \/ ~x.isb THEN FExc ELSE FBool(~x.b))
+         LET x == EvalF(f, t.a[1], env) IN FU1(x, IF x.exc \/ ~x.isb THEN FExc ELSE FBool(~x.b)))
     [] t.k = "select" -> (
          LET c == EvalF(f, t.a[1], env)
              x == EvalF(f, t.a[2], env)
              y == EvalF(f, t.a[3], env)
-         IN  IF c.exc \/ ~c.isb \/ x.exc \/ y.exc THEN FExc ELSE IF c.b THEN x ELSE y)
-    [] OTHER -> FExc
+         IN  IF c.un \/ x.un \/ y.un THEN FUn
+             ELSE IF c.exc \/ ~c.isb \/ x.exc \/ y.exc THEN FExc ELSE IF c.b THEN x ELSE y)
+    [] t.k = "complex" -> (
+         LET x == EvalF(f, t.a[1], env)
+             y == EvalF(f, t.a[2], env)
+         IN  FU2(x, y, IF FReal(x) /\ FReal(y) /\ x.lv = y.lv THEN FCplx(x.bits, y.bits, x.lv) ELSE FExc))
+    [] t.k \in {"real", "imag", "conjugate"} -> (
+         LET x == EvalF(f, t.a[1], env)
+             g == FmtLv(f, x.lv)
+         IN  IF x.un \/ (~x.exc /\ ~HasFmt(g)) THEN FUn
+             ELSE IF ~FCx(x) THEN FExc
+             ELSE CASE t.k = "real" -> FNumL(x.bits, x.lv)
+                    [] t.k = "imag" -> IF x.c THEN FNumL(x.im, x.lv) ELSE FNumL(PosZero(g), x.lv)
+                    [] t.k = "conjugate" -> IF x.c THEN FCplx(x.bits, FNeg(g, x.im), x.lv) ELSE x)
+    [] t.k \in CastKinds -> (
+         \* upcast is exact; downcast rounds to nearest (overflow / underflow of the narrower format are exceptional)
+         LET x == EvalF(f, t.a[1], env)
+             g == FmtLv(f, x.lv)
+             lv2 == IF t.k = "upcast" THEN x.lv + 1 ELSE x.lv - 1
+             h == FmtLv(f, lv2)
+         IN  IF x.un THEN FUn
+             ELSE IF x.exc THEN FExc
+             ELSE IF ~FReal(x) \/ ~HasFmt(g) \/ ~HasFmt(h) THEN FUn
+             ELSE IF ~IsFinite(g, x.bits) THEN FExc
+             ELSE IF IsZero(g, x.bits) THEN FNumL(WithSign(h, SignBit(g, x.bits), <<>>), lv2)
+             ELSE ArithRes(h, RN(h, Val(g, x.bits)), FALSE, lv2))
+    [] t.k \in PointKinds -> (
+         LET x == EvalF(f, t.a[1], env)
+             g == FmtLv(f, x.lv)
+         IN  IF x.un THEN FUn
+             ELSE IF x.exc THEN FExc
+             ELSE IF ~FReal(x) \/ ~HasFmt(g) THEN FUn
+             ELSE LET one == RN(g, DFromInt(1))
+                  IN  IF t.k \in ZeroAtOne /\ x.bits = one THEN FNumL(PosZero(g), x.lv)
+                      ELSE IF t.k \in ZeroAtZero /\ IsZero(g, x.bits) THEN FNumL(x.bits, x.lv)
+                      ELSE IF t.k \in OneAtZero /\ IsZero(g, x.bits) THEN FNumL(one, x.lv)
+                      ELSE FUn)
+    [] t.k = "is_finite" -> (
+         LET x == EvalF(f, t.a[1], env)
+             g == FmtLv(f, x.lv)
+         IN  IF x.un THEN FUn ELSE IF x.exc THEN FExc
+             ELSE IF ~FReal(x) \/ ~HasFmt(g) THEN FUn ELSE FBool(IsFinite(g, x.bits)))
+    [] t.k = "list" -> (
+         LET s == [i \in 1..Len(t.a) |-> EvalF(f, t.a[i], env)]
+         IN  IF \E i \in 1..Len(s) : s[i].un THEN FUn
+             ELSE IF \A i \in 1..Len(s) : ~s[i].exc THEN FList(s) ELSE FExc)
+    [] t.k = "item" -> (
+         LET l == EvalF(f, t.a[1], env)
+             i == IndexOf(t.a[2])
+         IN  FU1(l, IF ~l.exc /\ l.isl /\ i >= 0 /\ i < Len(l.lst) THEN l.lst[i + 1] ELSE FExc))
+    [] OTHER -> FUn
 
-\* booleans identical, floats equal up to the sign of zero
-FSame(f, x, y) == /\ x.isb = y.isb
-                  /\ IF x.isb THEN x.b = y.b
-                     ELSE x.bits = y.bits \/ (IsZero(f, x.bits) /\ IsZero(f, y.bits))
+\* booleans identical, floats equal up to the sign of zero (same format); a complex result with a zero
+\* imaginary part and the real result are the same value
+RECURSIVE FSame(_, _, _)
+FSame(f, x, y) ==
+  IF x.isl \/ y.isl THEN x.isl /\ y.isl /\ Len(x.lst) = Len(y.lst) /\ \A i \in 1..Len(x.lst) : FSame(f, x.lst[i], y.lst[i])
+  ELSE /\ x.isb = y.isb
+       /\ IF x.isb THEN x.b = y.b
+          ELSE LET g == FmtLv(f, x.lv)
+                   same(a, b) == a = b \/ (IsZero(g, a) /\ IsZero(g, b))
+                   xi == IF x.c THEN x.im ELSE PosZero(g)
+                   yi == IF y.c THEN y.im ELSE PosZero(g)
+               IN  x.lv = y.lv /\ HasFmt(g) /\ same(x.bits, y.bits) /\ same(xi, yi)
+
+
+(*************************** the up/down cast class *************************)
+\* upcast(downcast(x)) with x replaced for the whole pattern: the reading under which the rewriter's
+\* rule upcast(downcast(x)) -> x is an identity (used to CLASSIFY a float disagreement, see Trace_Rewrite)
+RECURSIVE ElimUD(_)
+ElimUD(t) == IF t.k = "upcast" /\ t.a[1].k = "downcast" THEN ElimUD(t.a[1].a[1])
+             ELSE [t EXCEPT !.a = [i \in 1..Len(t.a) |-> ElimUD(t.a[i])]]
 
 (*************************** assignments ************************************)
 \* values given to float symbols (finite; zeros of both signs; a subnormal; the extremes)
@@ -247,13 +502,16 @@ DomainBits(f, n) ==
   IN  IF n <= 1 THEN base \cup {neg(two), NegZero(f), half, neg(half), three, MinNormalMag(f), neg(NOne), LargestMag(f),
                                 neg(LargestMag(f)), NAdd(one, NOne), NSub(one, NOne)}
       ELSE IF n = 2 THEN base \cup {neg(two), half}
-      ELSE base
+      ELSE IF n = 3 THEN base
+      ELSE IF n = 4 THEN {PosZero(f), one, neg(two), half}
+      ELSE {PosZero(f), one, neg(two)}
 \* all assignments of a set of <<name, type>> symbols
 Envs(f, syms) ==
   LET names == {s[1] : s \in syms}
-      nf == Cardinality({s \in syms : s[2] # "boolean"})
+      nf == Cardinality({s \in syms : s[2] # "boolean"}) + Cardinality({s \in syms : s[2] = "complex"})
       ty(nm) == (CHOOSE s \in syms : s[1] = nm)[2]
-      vals(nm) == IF ty(nm) = "boolean" THEN {[b |-> TRUE, bits |-> <<>>], [b |-> FALSE, bits |-> <<>>]}
-                  ELSE {[b |-> FALSE, bits |-> x] : x \in DomainBits(f, nf)}
+      vals(nm) == IF ty(nm) = "boolean" THEN {[b |-> TRUE, bits |-> <<>>, im |-> <<>>], [b |-> FALSE, bits |-> <<>>, im |-> <<>>]}
+                  ELSE IF ty(nm) = "complex" THEN {[b |-> FALSE, bits |-> x, im |-> y] : x \in DomainBits(f, nf), y \in DomainBits(f, nf)}
+                  ELSE {[b |-> FALSE, bits |-> x, im |-> <<>>] : x \in DomainBits(f, nf)}
   IN  {e \in [names -> UNION {vals(nm) : nm \in names}] : \A nm \in names : e[nm] \in vals(nm)}
 =============================================================================
